@@ -751,7 +751,7 @@ def plan(prop, tier):
     if tier == "thorough":
         return {"runs": 60000, "budget_s": 900, "timeout_s": 120,
                 "selfcheck_runs": 24}
-    return {"runs": 2400, "budget_s": 75, "timeout_s": 90, "selfcheck_runs": 8}
+    return {"runs": 3200, "budget_s": 75, "timeout_s": 90, "selfcheck_runs": 8}
 
 
 # A fixed tiny configuration used as a saturation probe: P1 x P1 on one
